@@ -362,15 +362,20 @@ def build_trace(sc: dict, gens: list, ref: Reference):
                 rec["route"] = "restore" if ev.get("config") else "load"
                 rec["cfgeq"] = (norm_config(ev.get("config")) == orig_cfg) if ev.get("config") else True
                 rec["dtypeok"] = ev.get("dtype") == "float64"
-                rec["ndir"] = dirs.get(ev.get("ckpt_dir"), 1)
-                rec["nfreq"], rec["nkeep"], rec["nasync"] = ev["freq"], ev["maxkeep"], ev["is_async"]
                 o = op_restore or {}
+                # a directory the scenario does not know is "3" when the scenario says where saves must go
+                rec["ndir"] = dirs.get(ev.get("ckpt_dir"), 3 if o.get("expect_dir") else 1)
+                rec["nfreq"], rec["nkeep"], rec["nasync"] = ev["freq"], ev["maxkeep"], ev["is_async"]
                 rec["src"] = dirs.get(o.get("dir"), 1)
                 if rec["route"] == "restore":
                     rec["wantfreq"] = o["freq"] if o.get("freq") is not None else sc["freq"]
                     rec["wantkeep"] = o["max"] if o.get("max") is not None else sc["keep"]
                     rec["wantasync"] = o["async"] if o.get("async") is not None else sc["isasync"]
                     rec["wantdir"] = dirs.get(o.get("new_dir"), 1) if o.get("new_dir") else 1
+                    if o.get("new_dir") == "relB":
+                        rec["wantdir"] = 2
+                    if o.get("expect_dir"):
+                        rec["wantdir"] = dirs.get(o["expect_dir"], 1)
                     if rec["nfreq"] == 0 and rec["wantfreq"] == 0:
                         rec["wantdir"] = rec["ndir"]      # checkpointing disabled: no directory is set up
                 else:
@@ -409,6 +414,11 @@ def run_scenario(sc: dict, workdir: Path):
     A, B = str(base / "ckptA"), str(base / "ckptB")
     if sc.get("dirstyle") == "space_slash":
         A, B = str(base / "ckpt A dir") + "/", str(base / "ckpt B dir") + "//"
+    if sc.get("rel_new_dir"):
+        # the new directory of a restore is given as a RELATIVE path ("relB") by a process working in base/cwd1
+        (base / "cwd1").mkdir(exist_ok=True)
+        (base / "cwd2").mkdir(exist_ok=True)
+        B = str(base / "cwd1" / "relB")
     sc = dict(sc)
     sc["dirs"] = DirMap({} if sc.get("default_dir") else {A: 1, B: 2})
     gens_out = []
@@ -424,7 +434,7 @@ def run_scenario(sc: dict, workdir: Path):
         kw.pop("checkpoint_dir", None)
     prev_digest = None
     for gi, g in enumerate(sc["gens"]):
-        ops = json.loads(json.dumps(g["ops"]).replace("@A", A).replace("@B", B))
+        ops = json.loads(json.dumps(g["ops"]).replace("@A", A).replace("@B", B).replace("@RELB", "relB"))
         expanded = []
         for o in ops:
             if o["op"] == "restore_each":
@@ -441,7 +451,8 @@ def run_scenario(sc: dict, workdir: Path):
                           shim_log=(base / f"gen{gi}.shim") if g.get("shim_kill") is not None or g.get("shim_log") or sc.get("shim_log") else None,
                           watch=A, n_devices=g.get("n_devices", 1), maxarr=100000 if sc.get("rtol") else 0,
                           kill_after=g.get("kill_after"), fs_delay_us=sc.get("fs_delay_us", 0),
-                          cwd=str(base) if sc.get("default_dir") else None, no_x64=bool(sc.get("no_x64")))
+                          cwd=str(base / g["cwd"]) if g.get("cwd") else (str(base) if sc.get("default_dir") else None),
+                          no_x64=bool(sc.get("no_x64")))
         events = read_events(tr)
         killed = rc == -9
         if rc not in (0, -9):
